@@ -302,6 +302,11 @@ func (in *injector) Event(ev *hermes.VerifEvent, rc *RunCtx) {
 	for z := 0; z < g.N && z < len(p.WFrac); z++ {
 		lo := g.WMIN[z] / 3
 		g.WG[1][z] = lo + p.WFrac[z]*(g.W[z]-lo)
+		if p.WFrac[z] < 0 {
+			// an air-dry sample: below the dryness limit (what a measured-values record with absolute water contents can set)
+			g.WG[1][z] = lo * (1 + p.WFrac[z])
+			rc.Cov("injected_layers_below_dryness_limit", 1)
+		}
 		g.C1[z] = p.N[z]
 	}
 	g.WG[1][g.N] = g.WG[1][g.N-1]
